@@ -12,6 +12,16 @@ Transcribes from the current source (no analysis here):
              xread/xwrite (source/sink thread, work()); call order of primary_thread()
   compress.c write_header()/write_trailer() use xwrite; init()/uninit() call them
 
+Second output, coq/Gen/DataFailTab.v (property C07, process level; function gen_datafail):
+  expand.c/parse.c/decode.c/process.c  every call of a DEF() logging function, with the enclosing function;
+             the calls that report a DATA error (bail or warn row without errno argument) as a table:
+             thread that executes the call (main thread in work(), task of the `expansion` task list, ...),
+             the call as an operation (OpFail bail uses_errno), format string, err2str() argument,
+             enclosing conditions, whether the scheduler lock is held across the call
+  expand.c   task_list[]/`expansion` initialisers; process.c worker_thread_proc() call order
+  main.c     log_generic() as a list of output pieces; the literal errno argument of each DEF row;
+             the `_exit(warned ? EX_WARN : EX_OK)` of main()
+
 Statements that are not recognised make the translation FAIL (broken tie), they are never
 skipped.  Signal and errno numbers come from the python `signal`/`errno` modules of the
 platform the check runs on (the same platform the binary is built for).
@@ -644,10 +654,398 @@ Inductive op : Type :=
     return s
 
 
+# ---------------------------------------------------------------------------
+# second output: Gen/DataFailTab.v  (C07 process level: data-error call sites)
+# ---------------------------------------------------------------------------
+DEF_ROW_RE = r"^DEF\((\w+)\s*\((.*?)\),\s*(\w+)\s*,\s*(\w+)\s*,\s*(\d)\s*,\s*(\d)\s*,\s*(\d)\s*\)"
+
+# files whose every logging call is listed (the code that runs during decompression)
+DATA_FILES = ["src/expand.c", "src/parse.c", "src/decode.c", "src/process.c"]
+
+
+def def_rows_raw(main_c):
+    """name -> (f argument text, x argument text, warn, bail, nl) of every DEF() instance"""
+    rows = {}
+    for m in re.finditer(DEF_ROW_RE, cparse.strip_comments(main_c), re.M | re.S):
+        rows[m.group(1)] = (m.group(3), m.group(4), m.group(5) != "0", m.group(6) != "0", m.group(7) != "0")
+    return rows
+
+
+def strip_cpp(text):
+    """drop preprocessor lines (with continuations); both branches of #if stay"""
+    out = []
+    cont = False
+    for line in text.split("\n"):
+        if cont or re.match(r"\s*#", line):
+            cont = line.rstrip().endswith("\\")
+            out.append("")
+        else:
+            out.append(line)
+    return "\n".join(out)
+
+
+def c_string_value(toks, where):
+    """adjacent string literal tokens -> python string (simple escapes only)"""
+    if not toks or any(k != "str" for k, _ in toks):
+        raise ParseError("%s: format argument `%s` is not a string literal" % (where, txt(toks)))
+    val = ""
+    for _, v in toks:
+        body = v[1:-1]
+        i = 0
+        while i < len(body):
+            ch = body[i]
+            if ch == "\\":
+                i += 1
+                esc = body[i]
+                if esc in ('"', "\\", "'"):
+                    val += esc
+                else:
+                    raise ParseError("%s: escape \\%s in a diagnostic format is not supported" % (where, esc))
+            else:
+                val += ch
+            i += 1
+    for ch in val:
+        if not (32 <= ord(ch) < 127):
+            raise ParseError("%s: non-printable character in a diagnostic format" % where)
+    return val
+
+
+def coq_string(s):
+    return '"' + s.replace('"', '""') + '"'
+
+
+def functions_of(src):
+    """(name, body text) of every function defined in the file: the name starts a line and the
+    opening brace is on a line of its own (the style of the lbzip2 sources)"""
+    src = strip_cpp(cparse.strip_comments(src))
+    out = []
+    for m in re.finditer(r"^(\w+)\s*\(([^;{}]*?)\)\s*\n\{", src, re.M):
+        name = m.group(1)
+        start = m.end() - 1
+        depth = 0
+        j = start
+        while j < len(src):
+            if src[j] == "{":
+                depth += 1
+            elif src[j] == "}":
+                depth -= 1
+                if depth == 0:
+                    break
+            j += 1
+        if depth != 0:
+            raise ParseError("unbalanced braces in function %s" % name)
+        out.append((name, src[start + 1:j], m.start(), j))
+    return src, out
+
+
+def walk_calls(stmts, names, conds, found):
+    """collect (call name, arg token lists, statement, enclosing conditions) of statement-level
+    calls of one of `names`"""
+    for st in stmts:
+        k = st[0]
+        if k == "simple":
+            c = call_of(st[1])
+            if c and c[0] in names:
+                found.append((c[0], c[1], st, list(conds)))
+        elif k == "block":
+            walk_calls(st[1], names, conds, found)
+        elif k == "if":
+            walk_calls([st[2]], names, conds + [txt(st[1])], found)
+            if st[3] is not None:
+                walk_calls([st[3]], names, conds + ["! ( %s )" % txt(st[1])], found)
+        elif k == "loop":
+            walk_calls([st[3]], names, conds + ["in loop: %s" % txt(st[2])], found)
+        elif k == "switch":
+            lab = "?"
+            for it in st[2]:
+                if it[0] == "label":
+                    lab = it[1]
+                else:
+                    walk_calls([it], names, conds + ["%s is %s" % (txt(st[1]), lab)], found)
+
+
+def count_ids(text, names):
+    n = {}
+    toks = cparse.tokenize(text)
+    for i, (k, v) in enumerate(toks):
+        if k == "id" and v in names and i + 1 < len(toks) and toks[i + 1] == ("op", "("):
+            n[v] = n.get(v, 0) + 1
+    return n
+
+
+def struct_init_ids(src, pattern, what):
+    """identifiers/strings of a brace initialiser found by regex `pattern` (which ends at the `{`)"""
+    src = cparse.strip_comments(src)
+    m = re.search(pattern, src)
+    if not m:
+        raise ParseError("%s not found" % what)
+    start = m.end() - 1
+    depth = 0
+    j = start
+    while True:
+        if src[j] == "{":
+            depth += 1
+        elif src[j] == "}":
+            depth -= 1
+            if depth == 0:
+                break
+        j += 1
+    return cparse.tokenize(src[start:j + 1])
+
+
+def gen_datafail(repo):
+    def read(rel):
+        with open("%s/%s" % (repo, rel), encoding="latin-1") as f:
+            return f.read()
+
+    main_c = read("src/main.c")
+    proc_c = read("src/process.c")
+    exp_c = read("src/expand.c")
+    sig_c = read("src/signals.c")
+    rows = def_rows_raw(main_c)
+    for need in ("failf", "fail", "warn", "warnf", "info"):
+        if need not in rows:
+            raise ParseError("DEF row for %s not found" % need)
+    ctx = Ctx()
+    for k, (f, x, w, b, nl) in rows.items():
+        if f not in ("0", "f") or x not in ("0", "x"):
+            raise ParseError("DEF row %s: filespec/errno arguments `%s`/`%s` are not 0 or the parameter" % (k, f, x))
+        ctx.def_rows[k] = (f != "0", x != "0", w, b, nl)
+    dsig = cparse.find_defines(sig_c)
+    dmain = cparse.find_defines(main_c)
+    for nm, d in (("EX_FAIL", dsig), ("EX_OK", dmain), ("EX_WARN", dmain)):
+        if nm not in d or d[nm][0] is not None:
+            raise ParseError("%s not found" % nm)
+        ctx.consts[nm] = cparse.eval_const(cparse.parse_expr(d[nm][1]), {})
+
+    # ---- expansion task list and callbacks (expand.c)
+    tl = struct_init_ids(exp_c, r"\bstruct\s+task\s+task_list\s*\[\s*\]\s*=\s*\{", "expand.c task_list[]")
+    tasks = []
+    i = 1
+    while i < len(tl) - 1:
+        if tl[i] == ("op", ","):
+            i += 1
+            continue
+        if tl[i] != ("op", "{"):
+            raise ParseError("task_list: entry does not start with `{`: %r" % (tl[i],))
+        ent = []
+        i += 1
+        while tl[i] != ("op", "}"):
+            if tl[i] != ("op", ","):
+                ent.append(tl[i])
+            i += 1
+        i += 1
+        if len(ent) != 3:
+            raise ParseError("task_list: entry with %d fields" % len(ent))
+        if ent[0] == ("id", "NULL"):
+            if ent[1] != ("id", "NULL") or ent[2] != ("id", "NULL"):
+                raise ParseError("task_list: terminator is not all NULL")
+            continue
+        if ent[0][0] != "str" or ent[1][0] != "id" or ent[2][0] != "id":
+            raise ParseError("task_list: entry %r not understood" % (ent,))
+        tasks.append((ent[0][1][1:-1], ent[1][1], ent[2][1]))
+    if not tasks:
+        raise ParseError("task_list is empty")
+    pr = struct_init_ids(exp_c, r"\bconst\s+struct\s+process\s+expansion\s*=\s*\{", "expand.c `expansion`")
+    fields = [v for k, v in pr if k == "id"]
+    if len(fields) != 6 or fields[0] != "task_list":
+        raise ParseError("`expansion` initialiser: expected task_list, init, uninit, finished, on_input, on_written; got %r" % fields)
+    cb_init, cb_uninit, cb_fin, cb_in, cb_out = fields[1:]
+    task_run = {t[2] for t in tasks}
+    task_ready = {t[1] for t in tasks}
+
+    # ---- worker_thread_proc / main() / work() call order
+    worker_calls = calls_in(cparse.find_function_body(proc_c, "worker_thread_proc")[1])
+    main_body = cparse.find_function_body(main_c, "main")[1]
+    if "work" not in calls_in(main_body):
+        raise ParseError("main() does not call work()")
+    work_calls = [c for c in calls_in(strip_cpp(cparse.find_function_body(proc_c, "work")[1]))
+                  if c in ("xread", "xwrite", "schedule", "copy") or c in rows]
+
+    # ---- main(): final exit status
+    mst = parse_body(strip_cpp(main_body))
+    ex = [s for s in mst if s[0] == "simple" and s[1] and s[1][0] == ("id", "_exit")]
+    if len(ex) != 1:
+        raise ParseError("main(): expected exactly one top-level _exit()")
+    m = re.match(r"_exit \( (\w+) \? (\w+) : (\w+) \)$", txt(ex[0][1]))
+    if not m or m.group(1) != "warned" or m.group(2) not in ctx.consts or m.group(3) not in ctx.consts:
+        raise ParseError("main(): final `%s` is not _exit(warned ? EX_x : EX_y)" % txt(ex[0][1]))
+    exit_warned, exit_clean = m.group(2), m.group(3)
+    if mst[-1] is not ex[0]:
+        raise ParseError("main(): the _exit() is not the last statement")
+
+    # ---- log_generic(): output pieces
+    lg = parse_body(cparse.find_function_body(main_c, "log_generic")[1])
+    if len(lg) != 1 or lg[0][0] != "if" or lg[0][3] is not None or lg[0][2][0] != "simple" or txt(lg[0][2][1]) != "bailout ( )":
+        raise ParseError("log_generic(): body is not `if (<output fails>) bailout();`")
+    terms = []
+    cur = []
+    depth = 0
+    for k, v in lg[0][1]:
+        if (k, v) == ("op", "("):
+            depth += 1
+        if (k, v) == ("op", ")"):
+            depth -= 1
+        if (k, v) == ("op", "||") and depth == 0:
+            terms.append(cur)
+            cur = []
+        else:
+            cur.append((k, v))
+    terms.append(cur)
+    pieces = []
+    for t in terms:
+        s = txt(t)
+        m1 = re.match(r'0 > fprintf \( stderr , ("(?:[^"\\]|\\.)*") , pname \)$', s)
+        m2 = re.match(r'\( fs && 0 > fprintf \( stderr , ("(?:[^"\\]|\\.)*") , fs -> sep , fs -> fmt , fs -> sep \) \)$', s)
+        m3 = re.match(r'\( 0 != code && 0 > fprintf \( stderr , ("(?:[^"\\]|\\.)*") , strerror \( code \) \) \)$', s)
+        if m1:
+            pieces.append("LpPname %s" % coq_string(c_string_value([("str", m1.group(1))], "log_generic")))
+        elif m2:
+            pieces.append("LpFilespec %s" % coq_string(c_string_value([("str", m2.group(1))], "log_generic")))
+        elif s == "0 > vfprintf ( stderr , fmt , args )":
+            pieces.append("LpMessage")
+        elif m3:
+            pieces.append("LpStrerror %s" % coq_string(c_string_value([("str", m3.group(1))], "log_generic")))
+        elif s == r'( nl && 0 > fprintf ( stderr , "\n" ) )':
+            pieces.append("LpNewline")
+        elif s == "0 != fflush ( stderr )":
+            pieces.append("LpFlush")
+        else:
+            raise ParseError("log_generic(): output step `%s` not understood" % s)
+
+    # ---- every logging call of the decompression code
+    names = set(rows)
+    all_calls = []      # (file, func, logfn)
+    sites = []
+    for rel in DATA_FILES:
+        src = read(rel)
+        stripped, funcs = functions_of(src)
+        total = count_ids(stripped, names)
+        inside = {}
+        for fname, body, _, _ in funcs:
+            cnt = count_ids(body, names)
+            if not cnt:
+                continue
+            found = []
+            walk_calls(parse_body(body), names, [], found)
+            got = {}
+            for c in found:
+                got[c[0]] = got.get(c[0], 0) + 1
+            if got != cnt:
+                raise ParseError("%s %s(): %r logging calls in the text but %r as plain call statements" % (rel, fname, cnt, got))
+            for k, v in cnt.items():
+                inside[k] = inside.get(k, 0) + v
+            lock_ops = [c for c in calls_in(body) if c in ("sched_unlock", "sched_lock", "xunlock", "xlock", "xwait")]
+            for logfn, args, st, conds in found:
+                all_calls.append((rel, fname, logfn))
+                f, x, warn, bail, nl = ctx.def_rows[logfn]
+                if x or not (warn or bail):
+                    continue            # OS error (errno argument: C21) or informational message
+                where = "%s %s() %s" % (rel, fname, logfn)
+                a = [txt(t) for t in args]
+                ai = 0
+                if f:
+                    if not a or a[0] != "& ispec":
+                        raise ParseError("%s: filespec argument `%s` is not &ispec" % (where, a[0] if a else ""))
+                    ai = 1
+                if ai >= len(args):
+                    raise ParseError("%s: no format argument" % where)
+                fmt = c_string_value(args[ai], where)
+                rest = args[ai + 1:]
+                dirs = re.findall(r"%(.)", fmt)
+                if any(d != "s" for d in dirs) or len(dirs) != len(rest) or len(rest) > 1:
+                    raise ParseError("%s: format `%s` with %d arguments not understood" % (where, fmt, len(rest)))
+                arg = "ArgNone"
+                if rest:
+                    r = txt(rest[0])
+                    mc = re.match(r"err2str \( (ERR_\w+) \)$", r)
+                    mv = re.match(r"err2str \( (\w+(?: -> \w+)?) \)$", r)
+                    if mc:
+                        arg = "ArgConst %s" % coq_string(mc.group(1))
+                    elif mv:
+                        arg = "ArgVar %s" % coq_string(mv.group(1).replace(" ", ""))
+                    else:
+                        raise ParseError("%s: message argument `%s` is not err2str(<code>)" % (where, r))
+                if fname == "work" and rel == "src/process.c":
+                    thread = "ThMain"
+                elif rel == "src/expand.c" and fname in task_run:
+                    thread = "ThWorkerTask"
+                elif rel == "src/expand.c" and fname in (cb_init, cb_uninit):
+                    thread = "ThPrimary"
+                elif rel == "src/expand.c" and fname == cb_in:
+                    thread = "ThSource"
+                elif rel == "src/expand.c" and fname == cb_out:
+                    thread = "ThSink"
+                else:
+                    raise ParseError("%s: cannot tell which thread executes %s()" % (where, fname))
+                ops = op_of(st, ctx, where)
+                sites.append(dict(file=rel, func=fname, logfn=logfn, thread=thread, ops=ops, warn=warn, bail=bail,
+                                  fs=f, nl=nl, fmt=fmt, arg=arg, conds=conds, locked=not lock_ops))
+        for k, v in total.items():
+            if inside.get(k, 0) != v:
+                raise ParseError("%s: %d calls of %s in the file but %d inside recognised function bodies" % (rel, v, k, inside.get(k, 0)))
+
+    # ---- emit
+    s = "From LBZ Require Import Gen.IoFailTab.\nLocal Open Scope string_scope.\n\n"
+    s += "(* which thread executes a call site *)\n"
+    s += "Inductive site_thread := ThMain | ThWorkerTask | ThPrimary | ThSource | ThSink.\n"
+    s += "(* the %s argument of the message *)\n"
+    s += "Inductive site_arg := ArgNone | ArgConst (name : string) | ArgVar (expr : string).\n"
+    s += """Record data_site := mk_data_site {
+  ds_file : string; ds_func : string; ds_logfn : string;
+  ds_thread : site_thread;
+  ds_ops : list op;          (* the call statement as operations of Gen/IoFailTab.v *)
+  ds_warn : bool; ds_bail : bool;   (* columns of the DEF() row *)
+  ds_filespec : bool;        (* first argument is &ispec *)
+  ds_nl : bool;
+  ds_fmt : string; ds_arg : site_arg;
+  ds_conds : list string;    (* enclosing conditions, outermost first (documentation) *)
+  ds_lock_held : bool        (* the enclosing function never releases/takes the scheduler lock *)
+}.
+
+"""
+    s += "(* calls of bail/warn logging functions without errno argument in %s *)\n" % " ".join(DATA_FILES)
+    s += "Definition data_sites : list data_site := [\n  %s].\n\n" % ";\n  ".join(
+        "mk_data_site %s %s %s %s %s %s %s %s %s\n    %s (%s)\n    %s %s" % (
+            coq_string(d["file"]), coq_string(d["func"]), coq_string(d["logfn"]), d["thread"], coq_list(d["ops"]),
+            coq_bool(d["warn"]), coq_bool(d["bail"]), coq_bool(d["fs"]), coq_bool(d["nl"]),
+            coq_string(d["fmt"]), d["arg"], coq_list([coq_string(c) for c in d["conds"]]), coq_bool(d["locked"]))
+        for d in sites)
+    s += "(* every call of a DEF() logging function in those files: (file, function, logging function) *)\n"
+    s += "Definition decomp_log_calls : list (string * string * string) := [\n  %s].\n\n" % ";\n  ".join(
+        "(%s, %s, %s)" % tuple(coq_string(x) for x in c) for c in all_calls)
+    s += "(* the literal filespec / errno arguments of the DEF rows *)\n"
+    s += "Definition def_row_args : list (string * (string * string)) := [%s].\n\n" % "; ".join(
+        "(%s, (%s, %s))" % (coq_string(k), coq_string(v[0]), coq_string(v[1])) for k, v in rows.items())
+    s += "(* expand.c: task_list[] (name, ready, run) and the callbacks of `expansion` *)\n"
+    s += "Definition expansion_tasks : list (string * string * string) := [%s].\n" % "; ".join(
+        "(%s, %s, %s)" % tuple(coq_string(x) for x in t) for t in tasks)
+    s += "Definition expansion_callbacks : list string := [%s].  (* init, uninit, finished, on_input_avail, on_written *)\n" % "; ".join(
+        coq_string(x) for x in (cb_init, cb_uninit, cb_fin, cb_in, cb_out))
+    s += "(* process.c worker_thread_proc(): calls in source order *)\n"
+    s += "Definition worker_calls : list string := [%s].\n" % "; ".join(coq_string(c) for c in worker_calls)
+    s += "(* process.c work(): I/O, pipeline and logging calls in source order *)\n"
+    s += "Definition work_calls : list string := [%s].\n\n" % "; ".join(coq_string(c) for c in work_calls)
+    s += "(* main.c log_generic(): what is written to stderr, in order; any failure -> bailout() *)\n"
+    s += "Inductive log_piece :=\n| LpPname (fmt : string)      (* fprintf(stderr, fmt, pname) *)\n"
+    s += "| LpFilespec (fmt : string)   (* if (fs) fprintf(stderr, fmt, fs->sep, fs->fmt, fs->sep) *)\n"
+    s += "| LpMessage                   (* vfprintf(stderr, fmt, args) *)\n"
+    s += "| LpStrerror (fmt : string)   (* if (0 != code) fprintf(stderr, fmt, strerror(code)) *)\n"
+    s += "| LpNewline                   (* if (nl) fprintf(stderr, \"\\n\") *)\n| LpFlush.\n"
+    s += "Definition log_generic_pieces : list log_piece := %s.\n\n" % coq_list(pieces)
+    s += "(* main(): the last statement is _exit(warned ? %s : %s) *)\n" % (exit_warned, exit_clean)
+    s += "Definition final_status (warned : bool) : N := if warned then %s else %s.\n" % (exit_warned, exit_clean)
+    return s
+
+
 def generate(repo, out):
     out.write("IoFailTab.v", "src/signals.c src/main.c src/process.c src/compress.c", lambda: gen_iofail(repo))
+    out.write("DataFailTab.v", "src/expand.c src/parse.c src/decode.c src/process.c src/main.c src/signals.c", lambda: gen_datafail(repo))
 
 
 if __name__ == "__main__":
     import sys
-    print(gen_iofail(sys.argv[1] if len(sys.argv) > 1 else "/repo"))
+    if len(sys.argv) > 2 and sys.argv[2] == "data":
+        print(gen_datafail(sys.argv[1]))
+    else:
+        print(gen_iofail(sys.argv[1] if len(sys.argv) > 1 else "/repo"))
